@@ -220,14 +220,15 @@ PROPS = {
     "C11": dict(
         level="fault_enumeration",
         engine="simnet",
-        technique="runtime monitoring against the simulated wire's ground-truth working counter: every single-datagram public entry point x present/absent address x wire altering the counter x expected count 0..3; compound operations with the device unplugged at every step index",
+        technique="runtime monitoring against the simulated wire's ground-truth working counter: every single-datagram public entry point x present/absent address x wire altering the counter x expected count 0..3; compound operations with the device unplugged at every step index, or missing exactly one frame at every step index",
         level_text=("Part A: receive/receive_slice/send_receive/send_receive_slice over FPRD/BRD/APRD/LRD/FPWR/BWR/APWR/LRW with default, with_wkc(0..3) and ignore_wkc, against 1..4 devices, absent stations/positions/logical addresses and a wire adding -1/+1/+2: Ok iff the counter the wire returned equals the expected one, otherwise exactly WorkingCounter{expected, received} with the wire's numbers. "
-                    "Part B: register_read/write, status, eeprom_read_raw/eeprom_read, sdo_read/sdo_write, into_safe_op/into_op with the addressed device unplugged at a chosen frame of the operation (length measured by a clean run first): must be Err, never data or success."),
+                    "Part B: register_read/write, status, eeprom_read_raw/eeprom_read, sdo_read/sdo_write, into_safe_op/into_op with the addressed device unplugged at a chosen frame of the operation (length measured by a clean run first): must be Err, never data or success. "
+                    "Part C: the same operations while the addressed device misses exactly one frame (a transient dropout at every step index, the SII busy for 0..3 polls with the data register becoming valid only afterwards, other stale content left behind first): a missed datagram that hands device data back must make register/EEPROM accesses fail, and no operation may return anything but the true value; misses of fire-and-forget writes are recorded, not judged."),
         level_note="WrappedWrite::send and ignore_wkc callers are outside the quantifier (counted as opted out).",
         rule="case = (entry point, addressing, fault, expected count) or (operation, victim, unplug step); distinct by that tuple",
         assumptions=[],
         min_distinct=dict(quick=1500, thorough=150000),
-        required_counters=["A.counter_matches", "A.counter_differs", "A.opted_out", "B.rejected", "B.op.sdo_read", "B.op.into_op", "B.op.eeprom_read_raw", "A.cmd.12", "A.cmd.10"],
+        required_counters=["A.counter_matches", "A.counter_differs", "A.opted_out", "B.rejected", "B.op.sdo_read", "B.op.into_op", "B.op.eeprom_read_raw", "A.cmd.12", "A.cmd.10", "C.missed_read", "C.missed_write", "C.rejected", "C.op.eeprom_read_raw", "C.op.sdo_read"],
         runs=[native("wkc-release", "c11", "release"), native("wkc-debug", "c11", "debug", args={"scale-pct": dict(quick=25, thorough=5)})],
     ),
     "C08": dict(
